@@ -16,8 +16,17 @@ def pcost(ev):
     return 0.1
 
 
-def build_prng_driver(chk, cfg='prod'):
-    return build_driver(chk.wd, cfg, extra='-DTJD_WRAP_GETRANDOM', wraps=('getrandom',))
+OS_WRAPS = ('getrandom', 'getentropy', 'syscall')
+
+
+def build_prng_driver(chk, cfg='prod', variant='getrandom'):
+    """variant selects which OS entropy call the library's system source is built to use"""
+    has = set(HOST_HAS)
+    if variant in ('getentropy', 'syscall'):
+        has.discard('HAVE_GETRANDOM')
+    if variant == 'syscall':
+        has.discard('HAVE_GETENTROPY')
+    return build_driver(chk.wd, cfg, has=None if variant == 'getrandom' else has, extra='-DTJD_WRAP_GETRANDOM', wraps=OS_WRAPS)
 
 
 def script_items(r, dels):
@@ -116,6 +125,7 @@ def edge_histories(r):
     H.append(([I(33), L(96), G(64), F(10), G(64), G(64)], ['full', 'full', 'full']))   # feed brings the reseed closer
     H.append(([I(), L(33), G(70), L(31), G(70)], ['none'] * 6))                         # rounding up / down of the limit
     H.append(([I(), L(1024), G(1024), G(1)], ['full', 'full']))
+    H.append(([I(), L((1 << 64) - 1), G(96), L((1 << 64) - 30), G(64), G(40)], ['full', 'full']))      # "as rarely as possible"
     H.append(([I(300), F(1000), G(40), F(64), F(65), G(33)], ['full']))                   # long personalisation and feeds
     H.append(([I(), R, R, G(64), R, G(5), G(0), G(27)], ['short', 'none', 'full', 'short']))
     return H
@@ -189,11 +199,14 @@ def check_C16(chk):
         [I(), L((1 << 20) + 1), G((1 << 20) + 4096)],
         [I(), L(2 << 20), G((1 << 20) + 4096), G(100)],
         [I(), L(0xFFFFFFFFFFFF), G((1 << 20) + 33)],
+        [I(), L((1 << 64) - 1), G(4096), L((1 << 64) - 31), G(4096), L((1 << 63)), G(2048)],
         [I(), L(0), G(4096)],
         [I(), L(31), G(4096)], [I(), L(33), G(4096)], [I(), L(1), G(100), L(4096), G(8192), L(64), G(8192)],
         [I(), G(4000), F(1), G(4000)] + [F(2)] * 40 + [G(64)],
         [I(), L(65536), G(60000)] + [F(1), G(32)] * 30 + [G(70000)],
         [I(), L(1 << 19), G(1 << 19), R, G(1 << 19), G(1 << 19), G(1)],
+        [I(), G(32)] + [F(0)] * 66000 + [G(1056), G(32)],                 # more feeds than a 16-bit counter can count
+        [I(), L(1 << 20), G((1 << 20) - 32)] + [F(1)] * 33000 + [G(64)],
     ]
     if chk.thorough:
         big += [[I(), L(1 << 20)] + [G(99999)] * 25, [I(), L(777)] + [G(r.randint(0, 5000)) for _ in range(200)],
@@ -243,9 +256,13 @@ def check_C17(chk):
     chk.cov['fault_patterns'] = len(pats)
     for pi, p in enumerate(pats):
         # the pattern is consumed, in order, by: init, an automatic reseed, an explicit reseed, automatic, explicit, ...
-        ops = [dict(op='pinit', arg=[0, 0, 9, 40][pi % 4]), L(32), G(64)]
-        for k in range(len(p)):
-            ops += [R, G(33)] if k % 2 == 0 else [G(64)]
+        # (every third history reseeds explicitly right after init and right after a reseed, with nothing in between)
+        if pi % 3 == 2:
+            ops = [dict(op='pinit', arg=[0, 0, 9, 40][pi % 4])] + [R] * len(p) + [L(32), G(64), R, R, G(33)]
+        else:
+            ops = [dict(op='pinit', arg=[0, 0, 9, 40][pi % 4]), L(32), G(64)]
+            for k in range(len(p)):
+                ops += [R, G(33)] if k % 2 == 0 else [G(64)]
         ops += [G(32), G(32)]
         groups.append(history_lines(r, f"p{pi}", ops, list(p), obj=pi % 8))
     # NULL callback = system source = plain init; the OS call is interposed and scripted (full or failing)
@@ -255,7 +272,22 @@ def check_C17(chk):
             groups.append(history_lines(r, f"n{si}-{src}", ops, list(p), obj=si % 8, src=src))
     execs = run_exec_groups(exe, groups)
     annotate_ctl(execs, groups)
-    # the two system-source spellings must be served identically
+    # the same system-source histories with the library built for getentropy() and for the raw system call
+    sysg = [g for g in groups if any('src=null' in ln or 'src=plain' in ln for ln in g)]
+    for variant in ('getentropy', 'syscall'):
+        try:
+            exe_v = build_prng_driver(chk, variant=variant)
+        except MachineryError as e:
+            chk.log(f"note: the {variant} variant cannot be built from this tree ({str(e)[:100]})")
+            continue
+        chk.cov['builds'].append(f'prod:{variant}')
+        ex_v = run_exec_groups(exe_v, sysg)
+        annotate_ctl(ex_v, sysg)
+        for ex in ex_v:
+            for e in ex:
+                e['id'] = f"{variant}:{e.get('id')}"
+        execs += ex_v
+        groups += sysg
     judge_p(chk, execs, groups)
     nfail = sum(1 for ex in execs for e in ex if e.get('e') in ('PInit', 'PReseed') and e.get('res') == 0)
     nok = sum(1 for ex in execs for e in ex if e.get('e') in ('PInit', 'PReseed') and e.get('res') != 0)
